@@ -202,6 +202,11 @@ def run(repo: Repo, rep: Report, tier: str) -> None:
     from rules._reuse import reuse
 
     reuse(repo, rep, "c11", {"R11.2": "R6.6"})
+    from rules._memo import local_memo_rule
+
+    local_memo_rule(repo, rep, "R6.7", ("core.loader",),
+                    "An IRResponse carries the status code it was declared under: a shared `Problem` response referenced under 404 and 409 is loaded as 404 twice, "
+                    "no alias class and no arm exist for 409, and that status raises the base HTTPError instead of a ClientError.")
 
     # ---------------------------------------------------------------- R6.3 + agreement
     gen = repo.func("visit.endpoint.generators.response_handler_generator:EndpointResponseHandlerGenerator.generate_response_handling")
